@@ -172,6 +172,11 @@ func runC03(ctx *runCtx) {
 			cases = append(cases, genViolationCase(rng, maxSize/4, i%10))
 		}
 	}
+	// "where reading fails" includes the end of the byte stream: small streams cut at every offset (C04's generator): a message
+	// the sender never finished is never delivered
+	for i := 0; i < 6; i++ {
+		genCutCases(rng, 60, true, 0, func(c *ReadCase) { cases = append(cases, c) })
+	}
 	// context takeover across a message that ended with a final deflate block (the sender keeps its window)
 	for k := 0; k < 24; k++ {
 		cases = append(cases, genFinalBlockHistoryCase(rng, k))
